@@ -50,6 +50,46 @@ def run(P, rep, tier):
     rep.floor("C19.R4", 5)
 
 
+def make_strip_tuning(P):
+    """-> function removing, from calls of the hash functions, keyword arguments that only set the read size"""
+    # further (keyword) parameters of hashsum that only set the read size do not take part in the digest
+    hfi = P.func(f"{H}.hashsum")
+    par_ = {}
+    for p_ in ast.walk(hfi.node):
+        for ch in ast.iter_child_nodes(p_):
+            par_[id(ch)] = p_
+
+    def only_read_size(name: str) -> bool:
+        for x in walk_local(hfi.node):
+            if isinstance(x, ast.Name) and x.id == name and isinstance(x.ctx, ast.Load):
+                cur, ok_ = x, False
+                while id(cur) in par_:
+                    up = par_[id(cur)]
+                    if isinstance(up, ast.Call) and call_attr(up) == "read" and cur in up.args:
+                        ok_ = True
+                        break
+                    if isinstance(up, ast.Raise) or (isinstance(up, (ast.If, ast.While)) and cur is up.test):
+                        ok_ = True
+                        break
+                    cur = up
+                if not ok_:
+                    return False
+        return True
+
+    TUNING = {a.arg for a in hfi.node.args.kwonlyargs if only_read_size(a.arg)}
+
+    def strip_tuning(e: ast.AST) -> ast.AST:
+        import copy as _copy
+
+        e = _copy.deepcopy(e)
+        for c in ast.walk(e):
+            if isinstance(c, ast.Call) and (norm(c.func) in ("hashsum", "qualified_hashsum", "file_hashsum")):
+                c.keywords = [k for k in c.keywords if k.arg not in TUNING]
+        return e
+
+    return strip_tuning
+
+
 def r1_chunk_loop(P, rep, ctx):
     fi = P.func(f"{H}.hashsum")
     g = ctx.cfg(fi)
@@ -98,6 +138,8 @@ def r1_chunk_loop(P, rep, ctx):
     qf = F(ctx, q)
     rets = [qf.x(v) for _, v in qf.returns() if v is not None]
     a0, a1 = q.params[0], q.params[1]
+    strip_tuning = make_strip_tuning(P)
+    rets = [norm(strip_tuning(qf.xe(v))) for _, v in qf.returns() if v is not None]
     rep.check(rets == [f"f'{{{a1}}}:{{hashsum({a0}, {a1})}}'"], "C19.R1", q.qual, "qualified hash = algorithm prefix + ':' + digest", q.loc(), construct="qualified_hashsum", message=f"qualified_hashsum returns {rets}")
     # binary mode of every open that feeds a hash
     for fq in (f"{H}.file_hashsum", "ih5.record.hashsum_file", "harvester.common.FileMetaHarvester.run"):
@@ -321,9 +363,10 @@ def r4_structure(P, rep, ctx):
         rep.check(not stat, "C19.R4", f.qual, "no stat/timestamp value is consulted when hashing", f.loc(), construct="stat use", message=f"{f.qual} consults file status ({norm(stat[0]) if stat else ''}) while computing content hashes")
     fh = P.func(f"{H}.file_hashsum")
     fhf = F(ctx, fh)
+    strip_tuning = make_strip_tuning(P)
     withs = [n for n in fhf.g.nodes if n.kind == "with" and any(MM.match(f"open({fh.params[0]}, 'rb')", it.context_expr) is not None and it.optional_vars is not None for it in n.stmt.items)]
     okf = bool(withs)
     if okf:
         hv = norm(withs[0].stmt.items[0].optional_vars)
-        okf = bool(fhf.returns()) and all(v is not None and fhf.x_at(i, v) == f"qualified_hashsum({hv}, {fh.params[1]})" for i, v in fhf.returns())
+        okf = bool(fhf.returns()) and all(v is not None and norm(strip_tuning(fhf.xe_at(i, v))) == f"qualified_hashsum({hv}, {fh.params[1]})" for i, v in fhf.returns())
     rep.check(okf, "C19.R4", fh.qual, "file_hashsum hashes the file's current bytes", fh.loc(), construct="file_hashsum body", message="file_hashsum does not open the file and hash its bytes")
